@@ -598,6 +598,15 @@ def namedHook (id : String) (fs : List (String × Val)) : Except Exc (List (Stri
     match fs.find? (·.1 == f) with
     | some (_, .int i) => if i < 0 then .error { cls := .valueError, msg := "ValueError: negative " ++ f } else .ok fs
     | _ => .ok fs
+  else if id.startsWith "touch:" then
+    -- in-place normalisation of a container-valued field: `self.f['__touched'] = 1` / `self.f.append(0)`
+    let f := (id.drop 6).toString
+    .ok (fs.map fun (p : String × Val) =>
+      if p.1 != f then p else
+        match p.2 with
+        | .dict kvs => (p.1, .dict (kvs.filter (fun kv => !(Val.pyEq kv.1 (.str "__touched"))) ++ [(.str "__touched", .int 1)]))
+        | .list xs => (p.1, .list (xs ++ [.int 0]))
+        | _ => p)
   else if id.startsWith "fill:" then
     let f := (id.drop 5).toString
     .ok (fs.filter (·.1 != f) ++ [(f, .int 0)])
@@ -833,9 +842,14 @@ def runOp (sc : Scen) (j : Json) : P Json := do
       let eqOpt ← jbool (jfieldD j "eq_opt" (.bool true))
       let ordOpt ← jbool (jfieldD j "order_opt" (.bool true))
       let ord := fun (r : Option Bool) => if ordOpt then optBoolJson r else Json.str "NotImplemented"
-      pure (Json.mkObj [("eq", .bool (eqOpt && Order.instEq fs Val.pyEq ia ib)),
-        ("lt", ord (Order.lt fs Val.pyEq pyGt ia ib)), ("le", ord (Order.le fs Val.pyEq pyGt ia ib)),
-        ("gt", ord (Order.gt' fs Val.pyEq pyGt ia ib)), ("ge", ord (Order.ge fs Val.pyEq pyGt ia ib))])
+      -- field values that are themselves dataclass instances compare by their (class, fields): the theorems take the
+      -- field equality as a parameter
+      let eqF : Val → Val → Bool := fun x y => match x, y with
+        | .obj .., .obj .. => Val.beq x y
+        | _, _ => Val.pyEq x y
+      pure (Json.mkObj [("eq", .bool (eqOpt && Order.instEq fs eqF ia ib)),
+        ("lt", ord (Order.lt fs eqF pyGt ia ib)), ("le", ord (Order.le fs eqF pyGt ia ib)),
+        ("gt", ord (Order.gt' fs eqF pyGt ia ib)), ("ge", ord (Order.ge fs eqF pyGt ia ib))])
   | "history" =>
     let ops ← (← jarr (← jfield j "ops")).toList.mapM fun o => do
       let k ← jstr (← jfield o "k")
@@ -863,6 +877,9 @@ def runOp (sc : Scen) (j : Json) : P Json := do
     let r := Cache.lruRun f ({ maxsize := maxsize, order := [] } : Cache.Lru Nat Nat) keys
     pure (Json.mkObj [("results", .arr (r.2.map fun (v : Nat) => (Json.num v : Json)).toArray),
                       ("order", .arr ((Cache.lruKeys r.1).map fun (k : Nat) => (Json.num k : Json)).toArray)])
+  | "reach" =>
+    -- observed on the implementation only (handlers inside positions of undeclared type are outside the model)
+    pure (Json.mkObj [("skip", .bool true)])
   | "into_dyn" =>
     let v ← parseVal (← jfield j "val")
     pure (exceptJson (dynOf sc E v))
